@@ -21,7 +21,8 @@ Inductive expectation :=
 | XMatchIff (b : bool)        (* literal-only rule: matches iff the input is the literal text *)
 | XObject (v : value)         (* input built from the rule: these fields must come out *)
 | XCircular                   (* a cyclic alias chain is reachable from the rule *)
-| XCompiles.                  (* acyclic aliases: the rule set must compile *)
+| XCompiles                   (* acyclic aliases: the rule set must compile *)
+| XInvalidArgs.               (* a filter with a bad argument list: the "invalid arguments" compile error *)
 
 Record case := mkCase {
   c_aliases : list (bytes * bytes); c_rules : list bytes; c_input : bytes; c_out : iout; c_expect : expectation }.
@@ -52,6 +53,8 @@ Definition oracle (c : case) : bool :=
   | XCircular, _ => false
   | XCompiles, (IOk _ | INoMatch) => true
   | XCompiles, _ => false
+  | XInvalidArgs, IInvalidArgs => true
+  | XInvalidArgs, _ => false
   end.
 
 Definition model_out (c : case) : gres := parse_groks (c_aliases c) (c_rules c) (c_input c).
